@@ -951,7 +951,11 @@ func SetFromVal(dst reflect.Value, v Val) {
 	switch dst.Kind() {
 	case reflect.Pointer:
 		p := reflect.New(dst.Type().Elem())
-		SetFromVal(p.Elem(), v)
+		if v.T == "ptr" && len(v.L) == 1 {
+			SetFromVal(p.Elem(), v.L[0]) // an explicit pointer level: ptr(nil) is a non-nil pointer to a nil pointer / zero value
+		} else {
+			SetFromVal(p.Elem(), v)
+		}
 		dst.Set(p)
 	case reflect.Slice:
 		s := reflect.MakeSlice(dst.Type(), len(v.L), len(v.L))
